@@ -187,6 +187,20 @@ def check_pickle(maxn):
                           f'{type(e).__name__}: {e}')
             continue
         _cmp_pickled(rec, 'pickle-inproc', t, n, m)
+    # leaf texts made of the bytes the encoding itself uses as markers
+    # ('(' = 40, ')' = 41, 'L' = 76), the empty leaf, NUL, and a leaf longer
+    # than any buffer granularity: the decoder must skip leaf bytes by length
+    marks = ['"(L)"', '|)|', 'L', '(', '', '\x00', 'L' * 70000]
+    for t in trees(min(maxn, 3), marks):
+        n = build(t)
+        rec.case(('markers', t), R.sexpr(t)[:200])
+        try:
+            m = pickle.loads(pickle.dumps(n))
+        except Exception as e:  # noqa
+            rec.violation('pickle-inproc-raises', R.sexpr(t)[:200],
+                          f'{type(e).__name__}: {e}')
+            continue
+        _cmp_pickled(rec, 'pickle-markers', t, n, m)
     ctx = multiprocessing.get_context('fork')
     # nodes constructed in different processes of a fork pool (and in the
     # parent meanwhile) never share an id
